@@ -40,6 +40,7 @@ let parse_case = function
         | L [A "nf"] -> nf := true
         | L [A "nal"] -> nal := true
         | L [A "group"; p] -> grp := Some (str p)   (* every definition is registered inside r.Group(p, ...) *)
+        | L [A "direct"] -> ()                  (* the same options, applied by calling the option functions with the router *)
         | L [A "lateopt"] -> late := true       (* Router.WithOptions(<no-op option>) after the registrations *)
         | L (A "gvar" :: nm :: re :: _) -> gv := !gv @ [(str nm, str re)]    (* (an optional 4th element: an earlier definition) *)
         | x -> failwith ("rt: bad option " ^ to_string x)) os;
